@@ -2,7 +2,7 @@
 from hypothesis import strategies as st
 
 from .. import worker as W
-from ..lang import gen, printer
+from ..lang import gen, printer, shadow
 from ..oracle import compare_model
 from ..runner import Outcome
 from .common import run_model, short
@@ -38,16 +38,24 @@ def cases(tier):
 
 def strategy(hazards):
     cfg = gen.Cfg(max_depth=3, p_confuse=0, exceptions=True, hazards=hazards)
-    return st.tuples(gen.closure_program(cfg), st.integers(0, 7))
+    # the third component drives the shadowing pass (pbt/lang/shadow.py): pairs of integers, each pair renames one
+    # declaration to the name of a variable of an enclosing scope; programs of the core grammar join the closure
+    # scenarios there because their nested blocks / loops / functions give shadowing more places to happen
+    progs_ = st.one_of(gen.closure_program(cfg), gen.closure_program(cfg), gen.program(gen.Cfg(p_confuse=0, hazards=hazards)))
+    return st.tuples(progs_, st.integers(0, 7), st.lists(st.integers(0, 1000), min_size=0, max_size=6))
 
 
 def run_case(case, ctx):
-    prog, sel = case
+    prog, sel = case[0], case[1]
+    picks = case[2] if len(case) > 2 else []
+    renames = 0
+    if picks:
+        prog, renames = shadow.shadowize(prog, picks)
     src, lines = printer.to_source(prog)
     res, why = run_model(prog, lines)
     if res is None:
         return Outcome(discarded=why)
-    labels = sorted(l for l in res.labels) + ["outcome:" + res.outcome]
+    labels = sorted(l for l in res.labels) + ["outcome:" + res.outcome] + (["shadowed"] if renames else [])
     nontrivial = "called_after_return" in res.labels or "cross_scope_read" in res.labels
     runs = 0
     fail = None
